@@ -156,7 +156,9 @@ class Scenario:
             parents_rel = []
             for p in range(max(1, absj - 2), absj):
                 if inp.choose(f'{tag}_par_{absj}_{p}', [False, True]):
-                    if p >= first_abs:
+                    # a parent inside the same update may be named by its in-update index or (legacy `parent_ids` /
+                    # `absolute_parent_ids`, still accepted by the front end) by its absolute id
+                    if p >= first_abs and inp.choose(f'{tag}_parkind_{absj}_{p}', ['in_update', 'absolute']) == 'in_update':
                         parents_rel.append(p - first_abs + 1)
                     else:
                         parents_abs.append(p)
